@@ -1372,6 +1372,64 @@ def rule_r18(prog, res):
     res.floor('R18', 'XML leaf readers with a validation sandwich', n, 3)
 
 
+def rule_r19(prog, res):
+    res.rule('R19', 'an XmlAttribute/XmlData member is validated with the '
+             'constraints of the type it wraps: the wrapper delegates '
+             'validate_string/validate_native to cls.type, or the dict '
+             'readers unwrap it before validating')
+    m = prog.cls('spyne.model.complex:XmlModifier')
+    delegated = []
+    for nm in ('validate_string', 'validate_native'):
+        f = m.methods.get(nm)
+        ok = False
+        if f is not None and len(f.params()) >= 2:
+            cp, vp = f.params()[0], f.params()[1]
+            rets = [r for r in walk_no_defs(f.node)
+                    if isinstance(r, ast.Return)]
+            ok = bool(rets) and all(
+                isinstance(r.value, ast.Call) and
+                unparse(r.value.func) == '%s.type.%s' % (cp, nm) and
+                [unparse(a) for a in r.value.args] == ['%s.type' % cp, vp]
+                for r in rets)
+        delegated.append(ok)
+        res.ob('R19', (f.where if f is not None else m.where),
+               'XmlModifier.%s %s' % (nm, 'delegates to the wrapped type'
+                                      if ok else 'is inherited or does not '
+                                      'delegate'), 'ok', nontrivial=ok)
+    if all(delegated):
+        return
+    # otherwise both dict readers must unwrap the modifier themselves
+    readers = [('spyne.protocol.dictdoc.hier:HierDictDocument',
+                '_from_dict_value'),
+               ('spyne.protocol.dictdoc.simple:SimpleDictDocument',
+                '_to_native_values')]
+    for cfq, nm in readers:
+        c = prog.cls(cfq)
+        f = c.methods.get(nm)
+        if f is None:
+            raise AnalysisError('%s.%s' % (c.name, nm), 'not found')
+        unwraps = False
+        for a in walk_no_defs(f.node):
+            if isinstance(a, ast.Assign) and isinstance(
+                    a.value, ast.Attribute) and a.value.attr == 'type':
+                g = guardspec.atoms_at(a, f.node)
+                if any(pol and ('XmlModifier' in t or 'XmlAttribute' in t)
+                       for t, pol in g):
+                    unwraps = True
+        res.ob('R19', f.where, '%s.%s %s' % (
+            c.name, nm, 'unwraps XmlModifier members' if unwraps else
+            'validates the wrapper class'), 'ok' if unwraps else 'VIOLATED')
+        if not unwraps:
+            res.finding('R19', 'XmlModifier|constraints-of-wrapped-type|%s'
+                        % nm, f.where, 'XmlModifier inherits ModelBase.'
+                        'validate_string/validate_native (nullability only) '
+                        'and %s.%s validates the wrapper class: the range, '
+                        'length, pattern and enumeration of XmlAttribute('
+                        'UnsignedByte) etc. are enforced over XML only, so '
+                        'the same logical request is accepted over JSON/'
+                        'YAML/MessagePack/HttpRpc' % (c.name, nm))
+
+
 def run(prog, res, tier):
     res.run_rule(rule_r1, prog, res)
     res.run_rule(rule_r2, prog, res)
@@ -1391,6 +1449,7 @@ def run(prog, res, tier):
     res.run_rule(rule_r16, prog, res)
     res.run_rule(rule_r17, prog, res)
     res.run_rule(rule_r18, prog, res)
+    res.run_rule(rule_r19, prog, res)
 
 
 _X = 'spyne/protocol/xml.py'
@@ -1404,6 +1463,18 @@ _I = 'spyne/protocol/_inbase.py'
 _SI = 'spyne/protocol/dictdoc/simple.py'
 
 MUTANTS = [
+    Mutant('xml-modifier-validates-itself', 'R19', 'fire',
+           'spyne/model/complex.py',
+           in_func('XmlModifier.validate_native',
+                   "return cls.type.validate_native(cls.type, value)",
+                   "return ModelBase.validate_native(cls, value)"),
+           'constraints-of-wrapped-type'),
+    Mutant('xml-modifier-string-check-on-wrapper', 'R19', 'fire',
+           'spyne/model/complex.py',
+           in_func('XmlModifier.validate_string',
+                   "return cls.type.validate_string(cls.type, value)",
+                   "return cls.type.validate_string(cls, value)"),
+           'constraints-of-wrapped-type'),
     Mutant('header-reader-arguments-shifted', 'R17', 'fire',
            'spyne/protocol/http.py',
            in_func('HttpRpc.deserialize',
